@@ -200,8 +200,15 @@ structure Cfg where
   lim : Nat := 1
   /-- `WatchPrefixBufferSize` -/
   buf : Nat := 128
+  /-- `ObsoleteEntriesTimeout` in milliseconds (−1 stands for a sub-millisecond timeout: every age counts) -/
+  obs : Int := 3600000
 
-def Cfg.limit (c : Cfg) (now : Int) : Option Int := if c.lit > 0 then some (now - c.lit) else none
+/-- `limit := time.Now().Add(-LeftIngestersTimeout)` as used by `RemoveTombstones(limit)`: a tombstone is
+removed iff `time.Unix(ts, 0).Before(limit)`. `now` is the Unix second of the clock (the value `now.Unix()`
+that stamps tombstones, i.e. the FLOOR); the clock's sub-second part is taken to be non-zero, so
+`ts·1s < now_exact − lit` ⟺ `ts < now + 1 − lit` ⟺ `ts ≤ now − lit`. (At an instant with zero nanoseconds
+Go keeps `ts = now − lit` one more time; that instant is ignored.) -/
+def Cfg.limit (c : Cfg) (now : Int) : Option Int := if c.lit > 0 then some (now + 1 - c.lit) else none
 
 structure Node (V : Type) where
   store : Store V := []
@@ -297,6 +304,11 @@ def delete {V : Type} [MergeVal V] (cfg : Cfg) (now nowMs : Int) (nd : Node V) (
     else match r.out with
       | none => { nd with store := r.store }
       | some o => broadcast (notify cfg { nd with store := r.store } key) key o false
+
+/-- `cleanupObsoleteEntries`: keys marked deleted for longer than `ObsoleteEntriesTimeout` are removed from
+the store — with all the tombstones their values held -/
+def cleanupObsolete {V : Type} (cfg : Cfg) (nowMs : Int) (nd : Node V) : Node V :=
+  { nd with store := nd.store.filter fun p => !(p.2.deleted && decide (nowMs - p.2.updateTime > cfg.obs)) }
 
 /-- the watcher goroutine takes one notification from its channel, reads the value and calls `f` -/
 def Watcher.run {V : Type} [MergeVal V] (st : Store V) (w : Watcher V) : Watcher V :=
@@ -461,6 +473,10 @@ inductive Event (V : Type)
   | notifyTick (n : Nat)
   /-- node `n` restarts with an empty store -/
   | restart (n : Nat)
+  /-- `KV.Delete(key)` on node `n` (key-level tombstone; outside the property's workloads) -/
+  | delete (n : Nat) (key : String)
+  /-- the obsolete-entries ticker of node `n` -/
+  | cleanup (n : Nat)
   /-- the clock advances by one second -/
   | tick
 
@@ -496,6 +512,8 @@ def stepC {V : Type} [MergeVal V] (cfg : Cfg) (c : Cluster V) : Event V → Clus
   | .watcherRun n w => c.upd n fun nd => { nd with watchers := modifyAt (fun x => x.run nd.store) w nd.watchers }
   | .notifyTick n => c.upd n notifyTick
   | .restart n => c.upd n fun _ => {}
+  | .delete n key => c.upd n fun nd => delete cfg c.clock (c.clock * 1000) nd key
+  | .cleanup n => c.upd n fun nd => cleanupObsolete cfg (c.clock * 1000) nd
   | .tick => { c with clock := c.clock + 1 }
 
 def runC {V : Type} [MergeVal V] (cfg : Cfg) (c : Cluster V) (evs : List (Event V)) : Cluster V :=
